@@ -44,6 +44,10 @@ Fixpoint flatten (e : expr) : list expr :=
   | _ => [e]
   end.
 
+(* repaired canonicalize: the equal-sides test is applied to the quotient too (dividing by a fraction multiplies across) *)
+Definition post_quotient (q : expr) : expr :=
+  match q with EFrac a b => if expr_eqb a b then EOne else q | _ => q end.
+
 Section Canon.
   Variable old : bool.
   Variable ordering : list var.
@@ -71,7 +75,7 @@ Section Canon.
         let r := if is_err n' then n' else if is_err d' then d'
                  else if is_one d' then n'
                  else if expr_eqb n' d' then EOne
-                 else (if old then truediv_old n' d' else truediv n' d') in (r, factors_of r)
+                 else (if old then truediv_old n' d' else post_quotient (truediv n' d')) in (r, factors_of r)
     | EOne | EZero => (e, [e])
     | EQ _ _ => (EErr TypeError, [EErr TypeError])
     | EErr _ => (e, [e])
